@@ -3,7 +3,7 @@ import multiprocessing as mp
 import os
 import time
 
-from . import lang, spec as specmod, scan
+from . import lang, spec as specmod, scan, mir
 
 _G = {}
 
@@ -29,6 +29,10 @@ def alphabet_points(bodies, prefix=('common::parse::', 'common::authority::', 'c
                         if o['k'] == 'const' and o.get('val') is not None and 0 < o['val'] < 256 and 'u8' in o.get('ty', ''):
                             pts.add(o['val'])
                             pts.add(o['val'] + 1)
+                        cv = mir.char_const(o) if o['k'] == 'const' else None
+                        if cv is not None and 0 < cv < 256:
+                            pts.add(cv)
+                            pts.add(cv + 1)
     return pts
 
 
